@@ -503,11 +503,15 @@ Definition process_eod (p : list byte) (v4 v6 ks : list (list byte)) : world -> 
   ret 0
   end end end.
 
-(* F8: prefix PDUs whose lengths exceed the address size *)
+(* F8: prefix PDUs whose lengths exceed the address size, or (rtr_prefix_pdu_is_valid, second half) with a bit set
+   behind the prefix length.  The name is kept from the time when only the lengths were checked. *)
+Definition prefix_host_bits_zero (p : list byte) : bool :=
+  let alen := if nthb p 1 =? c_IPV6_PREFIX then 16%nat else 4%nat in
+  forallb negb (skipn (Z.to_nat (nthb p 9)) (bits_of_bytes (firstn alen (skipn 12 p)))).
 Definition prefix_lengths_valid (p : list byte) : bool :=
   let bits := if nthb p 1 =? c_IPV4_PREFIX then 32 else 128 in
-  (nthb p 9 <=? bits) && (nthb p 10 <=? bits).
-Definition txt_pfx_len := str_bytes "Prefix PDU with a prefix length exceeding the address size received" ++ [0].
+  (nthb p 9 <=? bits) && (nthb p 10 <=? bits) && prefix_host_bits_zero p.
+Definition txt_pfx_len := str_bytes "Prefix PDU with an invalid prefix length or bits set beyond it received" ++ [0].
 Definition txt_unexp_store := str_bytes "Unexpected PDU received during data synchronisation" ++ [0].
 Definition txt_unexp_sync := str_bytes "Unexpected PDU received in data synchronisation" ++ [0].
 Definition txt_wrong_session := str_bytes "Wrong session_id in Cache Response PDU" ++ [0].
